@@ -2,6 +2,8 @@ package icept
 
 import (
 	"os"
+	"strings"
+	"sync/atomic"
 	"testing"
 	"testing/synctest"
 
@@ -10,10 +12,17 @@ import (
 )
 
 var current *Case
+var panicsOnly atomic.Bool
 
 func TestMain(m *testing.M) {
 	hx.Quiet()
 	hx.OnHang.Store(func(desc string) {
+		if panicsOnly.Load() {
+			// TestC05Stream: a call that does not return is C12's matter, not a panic
+			hx.For("C05").Label("run-ended-by-a-hang-that-belongs-to-C12", 1)
+			hx.Flush()
+			os.Exit(0)
+		}
 		if c := current; c != nil {
 			c.Failure, c.Property = "hang: a stream method did not return within 3s of real time during "+desc, "C12"
 			hx.WriteReplay("C12", c)
@@ -64,20 +73,64 @@ func genCase(rt *rapid.T) *Case {
 }
 
 func one(t interface{ Fatalf(string, ...any) }, c *Case, run func(func())) {
-	st := hx.For("C12")
+	oneFor("C12", t, c, run)
+}
+
+// oneFor runs a stream program for the given property. C12 owns every rule of the stream; C05 ("no call made by the
+// application panics") only the panics: any other failure belongs to C12's check and ends the case silently.
+func oneFor(prop string, t interface{ Fatalf(string, ...any) }, c *Case, run func(func())) {
+	st := hx.For(prop)
 	current = c
 	var f string
 	var labels map[string]int
 	var nt bool
 	run(func() { f, labels, nt = Run(c) })
 	current = nil
+	if f != "" && prop != "C12" && !strings.Contains(f, "panicked") {
+		st.Label("case-ended-by-a-failure-that-belongs-to-C12", 1)
+		return
+	}
 	if f != "" {
 		st.Failed()
-		c.Failure, c.Property = f, "C12"
-		hx.WriteReplay("C12", c)
+		c.Failure, c.Property = f, prop
+		hx.WriteReplay(prop, c)
 		t.Fatalf("%s", f)
 	}
 	st.Case(len(c.Steps), labels, nt, c)
+}
+
+// TestC05Stream: the stream programs of C12 under the no-panic oracle of C05 (the interceptors are calls made by the application).
+func TestC05Stream(t *testing.T) {
+	panicsOnly.Store(true)
+	inBubble := func(f func()) { synctest.Test(t, func(*testing.T) { f() }) }
+	if p := hx.ReplayIn(); p != "" {
+		var c Case
+		if err := hx.Load(p, &c); err != nil {
+			t.Fatal(err)
+		}
+		c.Failure = ""
+		oneFor("C05", t, &c, inBubble)
+		return
+	}
+	for _, m := range []string{"/svc/M", ""} {
+		for rk := 0; rk < 3; rk++ {
+			for ek := 0; ek < 3; ek++ {
+				for nested := 0; nested < 4; nested++ {
+					u := &UnaryCase{Method: m, NOpts: 2, ReqKind: rk, ErrKind: ek, Nested: nested}
+					if f := RunUnary(u); strings.Contains(f, "panicked") {
+						u.Failure = f
+						hx.WriteReplay("C05", u)
+						t.Fatalf("unary: %s", f)
+					}
+					hx.For("C05").AddCases(1)
+				}
+			}
+		}
+	}
+	rapid.Check(t, func(rt *rapid.T) {
+		c := genCase(rt)
+		oneFor("C05", rt, c, func(f func()) { rapid.SyncTest(rt, func(*rapid.T) { f() }) })
+	})
 }
 
 func TestC12(t *testing.T) {
